@@ -134,6 +134,94 @@ def tx_events(ctx, cases, tag, spec):
         cases.append({"id": tag + ".parse", "kind": "parse", "bytes": B(raw), "res": "raise", "tx": j, "reser": []})
 
 
+def history_events(ctx, cases, rng, tag, spec, steps):
+    """TxLaws' edit machine on one real object: id / hash / serialize are queried, a field is edited (witness or non-witness,
+    by attribute assignment or in place), and they are queried again.  The specification is evaluated on the harness' own
+    model of the fields, never on what is read back from the object."""
+    import copy
+    from buidl.tx import TxOut
+    from buidl.script import Script
+    from buidl.timelock import Sequence, Locktime
+    version, ins, outs, locktime, segwit = copy.deepcopy(spec)
+    tx = build(version, ins, outs, locktime, segwit)
+
+    def query(step, what):
+        j = jtx(version, ins, outs, locktime, segwit)
+        r = outcome(tx.serialize)
+        cases.append({"id": "%s.%d.ser" % (tag, step), "kind": "ser", "tx": j, "res": r[0], "bytes": B(r[1]) if r[0] == "ok" else [], "after": what})
+        rid = outcome(tx.id)
+        legacy = outcome(tx.serialize_legacy)
+        hr = [{"fn": "hash256", "in": B(legacy[1]), "out": B(h256(legacy[1]))}] if legacy[0] == "ok" else []
+        # certify the hash of the model's own legacy bytes as well (the object's may be stale)
+        cases.append({"id": "%s.%d.id" % (tag, step), "kind": "id", "tx": j, "res": rid[0], "txid": B(bytes.fromhex(rid[1])) if rid[0] == "ok" else [], "hr": hr, "after": what})
+        rh = outcome(tx.hash)
+        if rh[0] == "ok" and rid[0] == "ok" and rh[1] != bytes.fromhex(rid[1]):
+            cases.append({"id": "%s.%d.hash" % (tag, step), "kind": "id", "tx": j, "res": "ok", "txid": B(rh[1]), "hr": hr, "after": what + ":hash()"})
+    query(0, "build")
+    for step in range(1, steps + 1):
+        kinds = ["locktime", "version"]
+        if ins:
+            kinds += ["seq", "outpoint", "script_sig", "script_sig_inplace"]
+            if segwit:
+                kinds += ["wit_replace", "wit_append", "wit_append", "wit_pop"]
+        if outs:
+            kinds += ["amount", "out_script", "del_output"]
+        kinds += ["add_output"]
+        what = rng.choice(kinds)
+        k = rng.randrange(len(ins)) if ins else 0
+        o = rng.randrange(len(outs)) if outs else 0
+        if what == "locktime":
+            locktime = rng.choice([0, 1, 500000000, 0xFFFFFFFF, rng.randrange(2 ** 32)])
+            tx.locktime = Locktime(locktime)
+        elif what == "version":
+            version = rng.choice([1, 2, 3, rng.randrange(2 ** 32)])
+            tx.version = version
+        elif what == "seq":
+            ins[k]["seq"] = rng.choice([0, 0xFFFFFFFE, 0xFFFFFFFF, rng.randrange(2 ** 32)])
+            tx.tx_ins[k].sequence = Sequence(ins[k]["seq"])
+        elif what == "outpoint":
+            if rng.random() < 0.5:
+                ins[k]["idx"] = rng.randrange(2 ** 32)
+                tx.tx_ins[k].prev_index = ins[k]["idx"]
+            else:
+                ins[k]["txid"] = bytes(rng.randrange(256) for _ in range(32))
+                tx.tx_ins[k].prev_tx = ins[k]["txid"]
+        elif what == "script_sig":
+            ins[k]["script"] = rand_script(rng)
+            tx.tx_ins[k].script_sig = Script(list(ins[k]["script"]))
+        elif what == "script_sig_inplace":
+            item = bytes(rng.randrange(256) for _ in range(rng.choice([1, 20, 33, 72])))
+            ins[k]["script"] = list(ins[k]["script"]) + [item]
+            tx.tx_ins[k].script_sig.commands.append(item)
+        elif what == "wit_replace":
+            from buidl.witness import Witness
+            ins[k]["wit"] = rand_wit(rng, False)
+            tx.tx_ins[k].witness = Witness(list(ins[k]["wit"]))
+        elif what == "wit_append":
+            item = bytes(rng.randrange(256) for _ in range(rng.choice([0, 1, 33, 64, 72])))
+            ins[k]["wit"] = list(ins[k]["wit"]) + [item]
+            tx.tx_ins[k].witness.items.append(item)
+        elif what == "wit_pop":
+            if ins[k]["wit"]:
+                ins[k]["wit"] = list(ins[k]["wit"])[:-1]
+                tx.tx_ins[k].witness.items.pop()
+        elif what == "amount":
+            outs[o]["amount"] = rng.choice([0, 1, 546, 2 ** 32, rng.randrange(2 ** 63)])
+            tx.tx_outs[o].amount = outs[o]["amount"]
+        elif what == "out_script":
+            outs[o]["script"] = rand_script(rng)
+            tx.tx_outs[o].script_pubkey = Script(list(outs[o]["script"]))
+        elif what == "del_output":
+            del outs[o]
+            del tx.tx_outs[o]
+        elif what == "add_output":
+            new = {"amount": rng.randrange(2 ** 40), "script": rand_script(rng)}
+            outs.append(new)
+            tx.tx_outs.append(TxOut(new["amount"], Script(list(new["script"]))))
+        query(step, what)
+        ctx.nontriv(("history", what, segwit))
+
+
 def script_events(ctx, cases, rng, lengths):
     from buidl.script import Script
     for ln in lengths:
@@ -242,6 +330,12 @@ def run(ctx):
         n = 150 if q else 1500
         for k in range(n):
             tx_events(ctx, cases, "t%d" % k, rand_tx(rng, big=(k % 5 == 0)))
+        # edit histories on one object (TxLaws' edit machine bound to the code): the id follows every non-witness edit and no witness edit
+        for k in range(60 if q else 600):
+            sp = rand_tx(rng)
+            if len(sp[1]) == 0:
+                continue
+            history_events(ctx, cases, rng, "h%d" % k, sp, 4 if q else 6)
         # count boundaries of the compact-size prefix
         for nin, nout in ([(252, 1), (253, 2), (1, 253)] if q else [(0, 1), (252, 1), (253, 2), (254, 0), (300, 300), (1, 252), (2, 253), (1, 300)]):
             tx_events(ctx, cases, "c%d_%d" % (nin, nout), rand_tx(rng, nin, nout))
@@ -260,4 +354,6 @@ def run(ctx):
             key = "%s:%s" % (c["kind"], why)
             if c["kind"] == "script":
                 key += ":push%d" % c["plen"]
+            if "after" in c and c["after"] != "build":
+                key += ":after-edit:" + c["after"]
             ctx.violation(key, "recorded %s event rejected by TxWire: %s (case %s)" % (c["kind"], why, cid), {"kind": "case", "case": c})
